@@ -7293,7 +7293,8 @@ static PyObject* larfx(PyObject *self, PyObject *args, PyObject *kwrds)
 
     if (m < 0) m = C->nrows;
     if (n < 0) n = C->ncols;
-    
+    if (m == 0 || n == 0) return Py_BuildValue("");
+
     if (ov < 0) err_nn_int("offsetv");
     if ((side == 'L' && len(v) - ov < m) ||
         (side == 'R' && len(v) - ov < n)) err_buf_len("v")
